@@ -401,6 +401,28 @@ def build(repo=None):
     pt_helpers = {b_.name: b_ for b_ in pm.cls("_MetaPyTree").body if isinstance(b_, ast.FunctionDef)}
     pt_helpers.update({b_.name: b_ for b_ in pm.tree.body if isinstance(b_, ast.FunctionDef)})
 
+    def returns_leaf_list(h):
+        """a helper that flattens its argument and hands the leaf list back: `x[, s] = <...>.tree_flatten/tree_leaves(..)` and every return is `x` / `(x, ...)`, or a direct `return <...>.tree_flatten(..)`"""
+        own = [n for n in ast.walk(h)]
+        names = set()
+        for n in own:
+            if isinstance(n, ast.Assign) and isinstance(n.value, ast.Call) and getattr(n.value.func, "attr", getattr(n.value.func, "id", "")) in ("tree_flatten", "tree_leaves"):
+                t = n.targets[0]
+                first = t.elts[0] if isinstance(t, ast.Tuple) else t
+                if isinstance(first, ast.Name):
+                    names.add(first.id)
+        rets = [r_ for r_ in own if isinstance(r_, ast.Return)]
+        if not rets:
+            return False
+        for r_ in rets:
+            v = r_.value
+            if isinstance(v, ast.Call) and getattr(v.func, "attr", "") in ("tree_flatten", "tree_leaves"):
+                continue
+            first = v.elts[0] if isinstance(v, ast.Tuple) and v.elts else v
+            if not (isinstance(first, ast.Name) and first.id in names):
+                return False
+        return True
+
     def flow(f, q, roles, depth=0):
         """roles: parameter name -> 'tree' | 'list' | 'leaf' | 'leafcheck' (a callable that receives leaves). Every use of a tree / leaf list / leaf must be one of the allowed ones."""
         nested_fns = [n for n in ast.walk(f) if isinstance(n, ast.FunctionDef) and n is not f]
@@ -419,7 +441,7 @@ def build(repo=None):
             for n in nodes:
                 if isinstance(n, ast.Assign) and isinstance(n.value, ast.Call) and n.value.args and isinstance(n.value.args[0], ast.Name) and n.value.args[0].id in tree_names:
                     callee = getattr(n.value.func, "attr", getattr(n.value.func, "id", ""))
-                    flat_like = callee in ("tree_flatten", "tree_leaves") or (callee in pt_helpers and callee not in ALLOWED["tree"] and any(isinstance(r_, ast.Return) and isinstance(r_.value, ast.Call) and getattr(r_.value.func, "attr", "") == "tree_flatten" for r_ in ast.walk(pt_helpers[callee])))
+                    flat_like = callee in ("tree_flatten", "tree_leaves") or (callee in pt_helpers and callee not in ALLOWED["tree"] and returns_leaf_list(pt_helpers[callee]))
                     if flat_like:
                         t = n.targets[0]
                         first = t.elts[0] if isinstance(t, ast.Tuple) else t
@@ -434,9 +456,12 @@ def build(repo=None):
                         if isinstance(tgt, ast.Name):
                             leaf_names.add(tgt.id)
             accounted = set()
+            assigned_calls = {id(a_.value) for a_ in nodes if isinstance(a_, ast.Assign) and len(a_.targets) == 1 and isinstance(a_.targets[0], (ast.Name, ast.Tuple))}
             for n in nodes:
                 if isinstance(n, ast.Call):
                     callee = n.func.id if isinstance(n.func, ast.Name) else n.func.attr if isinstance(n.func, ast.Attribute) else "?"
+                    if callee in pt_helpers and callee not in ALLOWED["tree"] and pt_helpers[callee] is not f and returns_leaf_list(pt_helpers[callee]) and id(n) not in assigned_calls:
+                        flow_viol.append(f"{q}:{n.lineno}:result-of-{callee}")
                     tainted_args = [(i_, a_) for i_, a_ in enumerate(n.args) if isinstance(a_, ast.Name) and a_.id in (tree_names | list_names | leaf_names)]
                     helper = pt_helpers.get(callee) if (isinstance(n.func, ast.Name) or (isinstance(n.func, ast.Attribute) and isinstance(n.func.value, ast.Name) and n.func.value.id in ("cls", "self"))) else None
                     if tainted_args and helper is not None and helper is not f and callee not in ALLOWED["tree"] and depth < 3:
@@ -470,6 +495,11 @@ def build(repo=None):
                     accounted.add(id(n.left))
                 elif isinstance(n, (ast.For, ast.comprehension)) and isinstance(n.iter, ast.Name) and n.iter.id in list_names:
                     accounted.add(id(n.iter))
+                elif isinstance(n, ast.Return) and scope_fn is f and depth > 0 and returns_leaf_list(f):
+                    # a flattening helper hands the leaf list back to its caller, where it is a leaf list again (the caller must bind it by a plain assignment: checked there)
+                    first = n.value.elts[0] if isinstance(n.value, ast.Tuple) and n.value.elts else n.value
+                    if isinstance(first, ast.Name) and first.id in list_names:
+                        accounted.add(id(first))
             for n in nodes:
                 if isinstance(n, ast.Name) and isinstance(n.ctx, ast.Load) and n.id in (tree_names | list_names | leaf_names) and id(n) not in accounted:
                     flow_viol.append(f"{q}:{n.lineno}:{n.id}")
